@@ -1,117 +1,179 @@
-"""C19 tables read from today's source (ast):
-  * the `exist_ok` / `parents` constants of the `mkdir` call in `create_output_directory`, whether the
-    `except FileExistsError` branch increments the counter and whether the loop is `while True`;
-  * the existence discipline of every writer in pyxel/outputs/utils.py: `write_to_*` (skip when the file
-    exists and not overwrite), `to_*` (raise FileExistsError / pass overwrite=False to the library, or
-    plain overwrite);
-  * the default of `overwrite` in `save_to_files` and whether the exposure call site overrides it;
-  * whether `apply_run_number` formats `run_number + 1`;
-  * the literal parts of the two f-strings of `Outputs.build_filenames`."""
-import ast
+"""C19 tables, obtained by *running* today's output code in a scratch folder (`extract.run_in_repo`), through public
+entry points, observing effects on disk only:
 
-from extract import find_class, find_func, lbool, llist, parse
+  observedDirs        : (names already in the parent folder, directories obtained by consecutive starts within one
+                        second) — `Outputs.create_output_folder()` with the clock fixed
+  observedNames       : (mode, run, bucket, format, file name) — `Outputs.build_filenames` (exposure: no suffix; dask
+                        observation: flat index) and `Outputs.save_to_file(processor, run_number=…)` (sequential observation)
+  observedOnExisting  : (entry point, format, what happened to a file that already existed under the target name):
+                        "skip" (untouched, no error), "refuse" (untouched, error), "overwrite" (content replaced)
+  observedAutoNumbers : (numbers of the files present, number `apply_run_number` gives next without a run number)
+"""
+from extract import llist, lstr, run_in_repo
 
-FALLBACK = ("def mkdirExistOk : Bool := true\ndef retryIncrementsCounter : Bool := false\n"
-            "def skippingWriters : List String := []\ndef refusingWriters : List String := []\n"
-            "def overwritingWriters : List String := []\ndef saveToFilesOverwrites : Bool := true\n"
-            "def runNumberPlusOne : Bool := false\ndef plainNameParts : List String := []\n"
-            "def suffixedNameParts : List String := []\n"
-            "def autoNumberSortsNumbers : Bool := false")
+FALLBACK = ("def observedDirs : List (List String × List String) := []\n"
+            "def observedNames : List (String × Nat × String × String × String) := []\n"
+            "def observedOnExisting : List (String × String × String) := []\n"
+            "def observedAutoNumbers : List (List Nat × Nat) := []")
+
+PROBE = r"""
+import datetime as _dt, hashlib, json, os, sys, tempfile, types, warnings
+warnings.filterwarnings("ignore")
+from pathlib import Path
+from unittest import mock
+import numpy as np
+import pyxel.outputs
+from pyxel.outputs import ExposureOutputs, ObservationOutputs, apply_run_number
+from pyxel.detectors import CCD, CCDGeometry, Characteristics, Environment
+from pyxel.pipelines import DetectionPipeline, Processor
 
 
-def _kw(call: ast.Call, name: str):
-    for k in call.keywords:
-        if k.arg == name and isinstance(k.value, ast.Constant):
-            return k.value.value
-    return None
+class FixedDT(_dt.datetime):
+    @classmethod
+    def now(cls, tz=None):
+        return cls(2026, 1, 2, 3, 4, 5)
+
+
+def fixed_clock():
+    # wherever the output code took `datetime` from: the class, or the module
+    patches = []
+    for name, mod in list(sys.modules.items()):
+        if not name.startswith("pyxel.outputs") or mod is None:
+            continue
+        for attr, val in list(vars(mod).items()):
+            if val is _dt.datetime:
+                patches.append(mock.patch.object(mod, attr, FixedDT))
+            elif val is _dt:
+                fake = types.SimpleNamespace(**{k: getattr(_dt, k) for k in dir(_dt) if not k.startswith("__")})
+                fake.datetime = FixedDT
+                patches.append(mock.patch.object(mod, attr, fake))
+    return patches
+
+
+STAMP = "20260102_030405"
+tmp = tempfile.mkdtemp()
+out = {"dirs": [], "names": [], "existing": [], "auto": []}
+
+# 1. directories
+patches = fixed_clock()
+for p in patches:
+    p.start()
+try:
+    for k, (pre, nstart) in enumerate([([], 3), ([("run_" + STAMP, "dir"), ("run_" + STAMP + "_1", "file")], 2),
+                                      ([("run_" + STAMP + "_1", "dir")], 3)]):
+        parent = os.path.join(tmp, f"d{k}")
+        os.makedirs(parent)
+        for name, kind in pre:
+            if kind == "dir":
+                os.makedirs(os.path.join(parent, name))
+            else:
+                open(os.path.join(parent, name), "w").close()
+        got = []
+        for _ in range(nstart):
+            o = ExposureOutputs(output_folder=parent)
+            o.create_output_folder()
+            got.append(os.path.basename(str(o.current_output_folder)))
+        ok = all(os.path.isdir(os.path.join(parent, g)) for g in got)
+        out["dirs"].append([[n for n, _ in pre], got if ok else []])
+finally:
+    for p in patches:
+        p.stop()
+
+# a detector with every bucket filled, and its processor
+det = CCD(geometry=CCDGeometry(row=4, col=5, total_thickness=40.0, pixel_vert_size=10.0, pixel_horz_size=10.0),
+          environment=Environment(temperature=200.0),
+          characteristics=Characteristics(quantum_efficiency=0.9, charge_to_volt_conversion=1e-6, pre_amplification=100.0,
+                                          full_well_capacity=100000, adc_bit_resolution=16, adc_voltage_range=(0.0, 10.0)))
+base = np.arange(20, dtype=float).reshape(4, 5)
+det.photon.array = base + 1
+det.pixel.array = base + 2
+det.signal.array = base + 3
+det.image.array = (base * 100 + 4).astype("uint16")
+det.charge.add_charge_array(base + 5)
+proc = Processor(detector=det, pipeline=DetectionPipeline())
+SAVE = [{"detector.image.array": ["fits", "npy"]}, {"detector.pixel.array": ["npy"]}]
+COMBOS = [("image", "fits"), ("image", "npy"), ("pixel", "npy")]
+
+# 2. names
+o = ObservationOutputs(output_folder=os.path.join(tmp, "n"), save_data_to_file=SAVE)
+o.create_output_folder()
+for mode, suffix, run in (("exposure", None, 0), ("parallel", 0, 0), ("parallel", 7, 7), ("parallel", 12, 12)):
+    names = [str(x) for x in o.build_filenames(**({} if suffix is None else {"filename_suffix": suffix}))]
+    for (b, f), name in zip(COMBOS, names):
+        out["names"].append([mode, run, b, f, name])
+for run in (0, 4, 10):
+    tree = o.save_to_file(processor=proc, run_number=run)
+    for b, f in COMBOS:
+        fn = tree[b]["filename"]
+        dim = [d for d in fn.dims][0]
+        out["names"].append(["sequential", run, b, f, os.path.basename(str(fn.sel({dim: f}).values.item()))])
+
+
+def sha(p):
+    with open(p, "rb") as fh:
+        return hashlib.sha1(fh.read()).hexdigest()
+
+
+# 3. what happens to a file that exists under the target name
+from pyxel.outputs import utils as U
+for f in ("fits", "npy", "jpg", "jpeg"):
+    folder = Path(os.path.join(tmp, "e_stf_" + f))
+    folder.mkdir()
+    target = folder / f"detector_image.{f}"
+    target.write_bytes(b"somebody else's file")
+    before = sha(target)
+    try:
+        U.save_to_files(folder=folder, processor=proc, filenames=[Path(f"detector_image.{f}")], header=None)
+        err = False
+    except Exception:
+        err = True
+    same = sha(target) == before
+    out["existing"].append(["save_to_files", f, ("refuse" if err else "skip") if same else "overwrite"])
+for f in ("fits", "npy", "png", "jpg", "jpeg", "txt"):
+    oo = ObservationOutputs(output_folder=os.path.join(tmp, "e_stf2_" + f), save_data_to_file=[{"detector.image.array": [f]}])
+    oo.create_output_folder()
+    ext = {"jpeg": "jpeg"}.get(f, f)
+    try:
+        first = oo.save_to_file(processor=proc, run_number=0)
+        fn = first["image"]["filename"]
+        name = str(fn.values.ravel()[0])
+        target = Path(oo.current_output_folder) / os.path.basename(name)
+        target.write_bytes(b"somebody else's file")
+        before = sha(target)
+        try:
+            oo.save_to_file(processor=proc, run_number=0)
+            err = False
+        except Exception:
+            err = True
+        same = sha(target) == before
+        out["existing"].append(["save_to_file", f, ("refuse" if err else "skip") if same else "overwrite"])
+    except Exception as e:
+        out["existing"].append(["save_to_file", f, "unsupported:" + type(e).__name__])
+
+# 4. automatic numbering
+for k, present in enumerate([[], list(range(1, 10)), list(range(1, 11)), list(range(1, 13)), [3, 1, 7], [10], [9, 10, 11, 99, 100]]):
+    folder = os.path.join(tmp, f"a{k}")
+    os.makedirs(folder)
+    for n in present:
+        open(os.path.join(folder, f"detector_image_array_{n}.txt"), "w").close()
+    nxt = apply_run_number(Path(folder) / "detector_image_array_?.txt", run_number=None)
+    stem = Path(nxt).stem
+    out["auto"].append([present, int(stem.rsplit("_", 1)[-1])])
+print(json.dumps(out))
+"""
 
 
 def gen() -> str:
-    exist_ok = True
-    increments = False
-    mod_o = parse("pyxel/outputs/outputs.py")
-    f = find_func(mod_o, "create_output_directory")
-    if f is not None:
-        for n in ast.walk(f):
-            if isinstance(n, ast.Call) and isinstance(n.func, ast.Attribute) and n.func.attr == "mkdir":
-                v = _kw(n, "exist_ok")
-                exist_ok = bool(v) if v is not None else False  # pathlib default is False
-        loops = [n for n in ast.walk(f) if isinstance(n, ast.While)]
-        for lp in loops:
-            forever = isinstance(lp.test, ast.Constant) and lp.test.value is True
-            for h in ast.walk(lp):
-                if isinstance(h, ast.ExceptHandler) and isinstance(h.type, ast.Name) and h.type.id == "FileExistsError":
-                    aug = any(isinstance(x, ast.AugAssign) and isinstance(x.op, ast.Add) for x in ast.walk(h))
-                    cont = any(isinstance(x, ast.Continue) for x in ast.walk(h))
-                    increments = forever and aug and cont
-    mod_u = parse("pyxel/outputs/utils.py")
-    skipping, refusing, overwriting = [], [], []
-    if mod_u is not None:
-        for fn in mod_u.body:
-            if not isinstance(fn, ast.FunctionDef):
-                continue
-            if fn.name.startswith("write_to_"):
-                # `if filename.exists() and not overwrite: ... return`
-                ok = False
-                for n in ast.walk(fn):
-                    if isinstance(n, ast.If) and isinstance(n.test, ast.BoolOp) and isinstance(n.test.op, ast.And):
-                        txt = ast.unparse(n.test)
-                        if ".exists()" in txt and "not overwrite" in txt and any(isinstance(x, ast.Return) for x in n.body):
-                            ok = True
-                (skipping if ok else overwriting).append(fn.name)
-            elif fn.name in ("to_fits", "to_npy", "to_txt", "to_csv", "to_png", "to_jpg", "to_hdf"):
-                raises = any(isinstance(n, ast.Raise) and "FileExistsError" in ast.unparse(n) for n in ast.walk(fn))
-                lib_refuses = any(isinstance(n, ast.Call) and _kw(n, "overwrite") is False for n in ast.walk(fn))
-                (refusing if (raises or lib_refuses) else overwriting).append(fn.name)
-    stf_over = True
-    f = find_func(mod_u, "save_to_files")
-    if f is not None:
-        names = [a.arg for a in f.args.args]
-        defaults = dict(zip(names[len(names) - len(f.args.defaults):], f.args.defaults))
-        d = defaults.get("overwrite")
-        default_false = isinstance(d, ast.Constant) and d.value is False
-        passes = False
-        for rel in ("pyxel/exposure/exposure.py", "pyxel/observation/observation.py", "pyxel/observation/observation_dask.py"):
-            m = parse(rel)
-            if m is None:
-                continue
-            for n in ast.walk(m):
-                if isinstance(n, ast.Call) and getattr(n.func, "id", None) == "save_to_files":
-                    if any(k.arg == "overwrite" and not (isinstance(k.value, ast.Constant) and k.value.value is False) for k in n.keywords):
-                        passes = True
-        stf_over = not (default_false and not passes)
-    plus_one = False
-    f = find_func(mod_u, "apply_run_number")
-    if f is not None:
-        plus_one = any(isinstance(n, ast.BinOp) and isinstance(n.op, ast.Add) and ast.unparse(n) == "run_number + 1" for n in ast.walk(f))
-    # automatic numbering: `sorted(get_number(d) for d in dir_list)` — the *numbers* are sorted, not the names
-    sorts_numbers = False
-    if f is not None:
-        for n in ast.walk(f):
-            if isinstance(n, ast.Call) and getattr(n.func, "id", None) == "sorted" and n.args:
-                a0 = n.args[0]
-                if isinstance(a0, (ast.GeneratorExp, ast.ListComp)) and isinstance(a0.elt, ast.Call) and getattr(a0.elt.func, "id", None) == "get_number":
-                    sorts_numbers = True
-    plain, suffixed = [], []
-    cls = find_class(mod_o, "Outputs")
-    f = find_func(cls, "build_filenames")
-    if f is not None:
-        for n in ast.walk(f):
-            if isinstance(n, ast.JoinedStr):
-                parts = [v.value if isinstance(v, ast.Constant) else "{" + ast.unparse(v.value) + "}" for v in n.values]
-                if any("filename_suffix" in p_ for p_ in parts):
-                    suffixed = parts
-                else:
-                    plain = parts
+    res = run_in_repo(PROBE, timeout=300)
+    if res is None:
+        return "-- probe did not run\n" + FALLBACK
+    dirs = ", ".join(f"({llist(pre)}, {llist(got)})" for pre, got in res["dirs"])
+    names = ", ".join(f"({lstr(m)}, {int(r)}, {lstr(b)}, {lstr(f)}, {lstr(n)})" for m, r, b, f, n in res["names"])
+    existing = ", ".join(f"({lstr(a)}, {lstr(b)}, {lstr(c)})" for a, b, c in res["existing"])
+    auto = ", ".join("([" + ", ".join(str(int(x)) for x in pres) + f"], {int(nxt)})" for pres, nxt in res["auto"])
     return (
-        f"def mkdirExistOk : Bool := {lbool(exist_ok)}\n"
-        f"def retryIncrementsCounter : Bool := {lbool(increments)}\n"
-        f"def skippingWriters : List String := {llist(sorted(skipping))}\n"
-        f"def refusingWriters : List String := {llist(sorted(refusing))}\n"
-        f"def overwritingWriters : List String := {llist(sorted(overwriting))}\n"
-        f"def saveToFilesOverwrites : Bool := {lbool(stf_over)}\n"
-        f"def runNumberPlusOne : Bool := {lbool(plus_one)}\n"
-        f"def plainNameParts : List String := {llist(plain)}\n"
-        f"def suffixedNameParts : List String := {llist(suffixed)}\n"
-        f"def autoNumberSortsNumbers : Bool := {lbool(sorts_numbers)}"
+        f"def observedDirs : List (List String × List String) := [{dirs}]\n"
+        f"def observedNames : List (String × Nat × String × String × String) := [{names}]\n"
+        f"def observedOnExisting : List (String × String × String) := [{existing}]\n"
+        f"def observedAutoNumbers : List (List Nat × Nat) := [{auto}]"
     )
